@@ -104,6 +104,7 @@ type partition struct {
 	currentNodeID        models.NodeID
 	mutex                sync.Mutex
 	loopWaiter           sync.WaitGroup // replica loops which are running
+	replicaLogMutex      sync.Mutex     // lock of appending replica log(follower side)
 }
 
 // NewPartition creates a writeTask ahead log partition(db+shard+family time+leader).
@@ -145,6 +146,12 @@ func (p *partition) ReplicaLog(replicaIdx int64, msg []byte) (int64, error) {
 	if p.closed.Load() {
 		return 0, constants.ErrPartitionClosed
 	}
+	// NOTE: check of the index and append must be one step, two streams of the leader can be alive at the same
+	// time(a broken stream whose last request is still being handled and its successor), if not, both pass the
+	// check with the same index and the message is appended twice.
+	p.replicaLogMutex.Lock()
+	defer p.replicaLogMutex.Unlock()
+
 	appendIdx := p.log.Queue().AppendedSeq() + 1
 	if replicaIdx != appendIdx {
 		return appendIdx, nil
